@@ -510,12 +510,15 @@ class AwareASTNode(DataClassSerializeMixin):
         self,
         operation: t.Literal["create", "attach", "replace"],
         seen: dict[str, AwareASTNode],
+        adopted: dict[int, AwareASTNode],
     ) -> tuple[AwareASTNode, AwareASTNode] | None:
         """Dry run of `_attach_inner`: detects the same collisions, but without
         any side effects, so that a rejected operation leaves nothing behind.
 
         Args:
             seen: ids (and nodes) of the subtree that would be registered by now
+            adopted: attached roots (by object identity) that a node of the subtree
+                would have adopted by now, and their new parent
         """
         existing_node = AwareASTNode._nodes.get(self.id, seen.get(self.id))
         if existing_node is not None:
@@ -529,18 +532,26 @@ class AwareASTNode(DataClassSerializeMixin):
 
         for c in self.get_child_nodes():
             if c.detached:
-                if (ret := c._check_attach(operation=operation, seen=seen)) is not None:
+                if (
+                    ret := c._check_attach(operation=operation, seen=seen, adopted=adopted)
+                ) is not None:
                     return ret
             elif not c.is_attached_root:
                 assert c.parent is not None
                 return (c, c.parent)
+            elif id(c) in adopted:
+                # An attached root that occurs twice in the subtree: the first
+                # occurence would have given it a parent by now
+                return (c, adopted[id(c)])
+            else:
+                adopted[id(c)] = self
 
         return None
 
     def _attach(self, operation: t.Literal["create", "attach", "replace"]) -> None:
         # First make sure that the whole subtree can be attached, only then attach.
         # Otherwise a collision found half way would leave a partially attached tree.
-        ret = self._check_attach(operation=operation, seen={})
+        ret = self._check_attach(operation=operation, seen={}, adopted={})
 
         if ret is None:
             ret = self._attach_inner(operation=operation)
